@@ -171,6 +171,12 @@ pub enum Op {
     BlockOn { a: u8, v: u64, o: MO, reg_first: bool },
     /// `AtomicWaker::wake()` on the shared AtomicWaker
     AwWake,
+    /// `block_on(poll_fn(..))` of a future that is ready when `a == va && b == vb`; on its first
+    /// poll it hands a clone of its waker to each of the two waker slots
+    BlockOn2 { a: u8, va: u64, b: u8, vb: u64, o: MO },
+    /// wake through the waker clone in slot `i` (by value: the clone is consumed; by reference: it
+    /// stays). No-op while the slot is empty.
+    SlotWake { i: u8, by_ref: bool },
     // ---- exploration controls ----
     StopExploring,
     Explore,
@@ -309,6 +315,8 @@ impl fmt::Display for Op {
             LazyGet { k } => write!(f, "lazy(z{})", k),
             BlockOn { a, v, o, reg_first } => write!(f, "block_on(a{}=={},{},{})", a, v, o.short(), if *reg_first { "register-then-check" } else { "check-then-register" }),
             AwWake => write!(f, "aw_wake"),
+            BlockOn2 { a, va, b, vb, o } => write!(f, "block_on(a{}=={}&&a{}=={},{})", a, va, b, vb, o.short()),
+            SlotWake { i, by_ref } => write!(f, "{}(slot{})", if *by_ref { "wake_by_ref" } else { "wake" }, i),
             StopExploring => write!(f, "stop_exploring"),
             Explore => write!(f, "explore"),
             SkipBranch => write!(f, "skip_branch"),
@@ -366,7 +374,7 @@ impl Program {
             use Op::*;
             Some(match op {
                 Load { a, .. } | AUnsyncLoad { a } | Await { a, .. } | AwaitY { a, .. } | BlockOn { a, .. } => (0, *a, true),
-                AwWake => (10, 0, false),
+                AwWake | SlotWake { .. } | BlockOn2 { .. } => (10, 0, false),
                 Store { a, .. }
                 | Swap { a, .. }
                 | FetchAdd { a, .. }
